@@ -24,6 +24,7 @@ CONSTANTS Slates,        \* slate names, e.g. {"s1","s2"}
           MaxFork,       \* reorganisations of depth 1..MaxFork (0 = none)
           UseScan,       \* owner::scan (with and without delete_unconfirmed), restore from seed
           UseDiverge,    \* inject divergences into w1's records
+          UseAccounts2,  \* a second account on the recipient w2, receives into it by name
           UseSelf        \* w1 may receive its own slates (self-send), also into its second account
 
 VARIABLES st, hv, net, hist, mids   \* mids: the intermediate persistent states of the last step
@@ -131,16 +132,22 @@ LockAct(sl, m) ==
      UpdS(r.steps, IF r.res = "ok" THEN HvAfterLock(st, s2, hv, "w1", sl) ELSE hv, net,
           [ev |-> "lock", w |-> "w1", sl |-> sl, stage |-> m.stage, rep |-> m.rep])
 
-\* deliver the S1 message of slate sl to wallet w (w2 normally; w1 = self-send)
-ReceiveAct(w, sl) ==
+\* deliver the S1 message of slate sl to wallet w (w2 normally; w1 = self-send), into the
+\* account labelled dest ("" = the active one)
+ReceiveActD(w, sl, dest) ==
   /\ \E m \in net : m.sl = sl /\ m.stage = "S1"
   /\ LET m == CHOOSE m \in net : m.sl = sl /\ m.stage = "S1"
-         r == Receive(st, w, [sl |-> sl, dest |-> "", amt |-> m.amt, ttl |-> m.ttl, hasproof |-> FALSE, kernin |-> "part"])
-         e == [ev |-> "receive", w |-> w, sl |-> sl] IN
+         r == Receive(st, w, [sl |-> sl, dest |-> dest, amt |-> m.amt, ttl |-> m.ttl, hasproof |-> FALSE, kernin |-> "part"])
+         e == [ev |-> "receive", w |-> w, sl |-> sl, dest |-> dest] IN
      IF r.res = "ok"
      THEN UpdS(r.steps, HvAfterReceive(st, LastOf(r.steps), hv, w, sl),
                net \cup {Msg(sl, "S2", m.amt, m.ttl, OID(st, w, r.key), r.rep)}, e)
      ELSE Upd(st, hv, net, e)
+ReceiveAct(w, sl) == ReceiveActD(w, sl, "")
+\* a second account on the recipient
+CreateAccount2Act ==
+  /\ "a1" \notin AllAccts(st, "w2")
+  /\ Upd(LastOf(CreateAccount(st, "w2", [name |-> "a1", label |-> "acct1"]).steps), hv, net, [ev |-> "create_account", w |-> "w2", label |-> "acct1"])
 
 FinalizeAct(sl, m) ==
   /\ m \in net /\ m.sl = sl /\ m.stage = "S2"
@@ -293,6 +300,7 @@ Next ==
                      \/ \E sl \in Slates, amt \in Amounts : InitSendAct(sl, amt, FALSE, 0, "default"))
   \/ \E sl \in Slates : ReceiveAct("w2", sl) \/ PostAct(sl)
   \/ UseSelf /\ \E sl \in Slates : ReceiveAct("w1", sl)
+  \/ UseAccounts2 /\ (CreateAccount2Act \/ \E sl \in Slates : ReceiveActD("w2", sl, "acct1"))
   \/ \E sl \in Slates : \E m \in net : FinalizeAct(sl, m) \/ LockAct(sl, m)
   \/ UseInvoice /\ \E sl \in Slates : (\E amt \in Amounts : IssueInvoiceAct(sl, amt)) \/ ProcessInvoiceAct(sl)
                                         \/ \E m \in net : FinalizeInvoiceAct(sl, m)
